@@ -5,7 +5,7 @@ From Coq Require Import ZArith List Bool Reals Lia Lra.
 From FT.lib Require Import Num Arr ArrLemmas Lower NumArr.
 From FT.gen Require Import Common Interp2d Interp3d Vinterp2d Vinterp3d FteikCommon Fteik2d Fteik3d Ray2d Ray3d.
 From FT.proofs Require Import SSR InterpR Interp3R Sweep2dProofs OperatorsR.
-From FT.proofs Require Operators3R.
+From FT.proofs Require Operators3R InitSym.
 Import ListNotations.
 Open Scope R_scope.
 
@@ -100,6 +100,162 @@ Theorem C18_interp3d_axis_swap_yz :
        u_interp3d_v x y z v xq yq zq fval = u_interp3d_v x z y vt xq zq yq fval.
 Proof. exact @Interp3R.interp3d_axis_swap_yz. Qed.
 
+(* tie: the generated source initialisation IS (by conversion) corners, then the east, west, down and up phases below - each loop body two instances of one block, every numeric instance *)
+Theorem C18_init_is_four_copies :
+  forall (T : Type) (H : Num T) (dx dz : T) (grad : bool) (iflag nx nz : Z) (slow tt_v ttgrad : arr T)
+         (ttsgn : arr Z) (vzero xsa : T) (xsi : Z) (zsa : T) (zsi : Z),
+       fteik2d_p2 dx dz grad iflag nx nz slow tt_v ttgrad ttsgn vzero xsa xsi zsa zsi =
+       (if iflag =? 2
+        then
+         let td := full [Z.max nz nx] Fteik2d.Big in
+         let dzu := nabs (nsub zsa (nofZ zsi)) in
+         let dzd := nsub (nofZ 1) dzu in
+         let dxw := nabs (nsub xsa (nofZ xsi)) in
+         let dxe := nsub (nofZ 1) dxw in
+         let c := InitSym.init_corners dx dz grad vzero xsa xsi zsa zsi tt_v ttgrad in
+         let st := InitSym.east_phase dx dz grad nx slow vzero xsa xsi zsa zsi dzu dzd dxe (td, fst c, ttsgn) in
+         let st0 := InitSym.west_phase dx dz grad slow vzero xsa xsi zsa zsi dzu dzd dxw st in
+         let st1 :=
+           InitSym.down_phase dx dz grad nz slow vzero xsa xsi zsa zsi dxw dxe dzd
+             (fill (fst (fst st0)) Fteik2d.Big, snd (fst st0), snd st0) in
+         let st2 := InitSym.up_phase dx dz grad slow vzero xsa xsi zsa zsi dxw dxe dzu st1 in
+         (snd (fst st2), snd c, snd st2)
+        else (set tt_v [ntrunc zsa; ntrunc xsa] (nofZ 0), ttgrad, ttsgn)).
+Proof. exact @InitSym.fteik2d_p2_decompose. Qed.
+
+(* the west loop on the x-mirrored problem gives the x-mirror of the east loop (times; sign component 1 negated), heterogeneous media, every shape, untouched cells included *)
+Theorem C18_init_west_is_mirror_of_east :
+  forall (nz nx M M' : Z) (dx dz : R) (grad : bool) (slow : arr R) (vzero xsa : R) (xsi : Z) 
+         (zsa : R) (zsi : Z) (dzu dzd dxe : R) (td td' tt : arr R) (sg : arr Z),
+       wf slow ->
+       shape slow = [(nz - 1)%Z; (nx - 1)%Z] ->
+       wf tt ->
+       shape tt = [nz; nx] ->
+       (grad = true -> wf sg /\ shape sg = [nz; nx; 2%Z]) ->
+       wf td ->
+       wf td' ->
+       shape td = [M] ->
+       shape td' = [M'] ->
+       (nx <= M)%Z ->
+       (nx <= M')%Z ->
+       (0 <= zsi < nz - 1)%Z ->
+       (0 <= xsi < nx - 1)%Z ->
+       let r := InitSym.east_phase dx dz grad nx slow vzero xsa xsi zsa zsi dzu dzd dxe (td, tt, sg) in
+       let r' :=
+         InitSym.west_phase dx dz grad (InitSym.mirror_x (nz - 1) (nx - 1) slow) vzero (IZR (nx - 1) - xsa)
+           (nx - 2 - xsi) zsa zsi dzu dzd dxe (td', InitSym.mirror_x nz nx tt, InitSym.mirror_sgn_x nz nx sg) in
+       (forall i j : Z,
+        (0 <= i < nz)%Z -> (0 <= j < nx)%Z -> get 0 (snd (fst r')) [i; j] = get 0 (snd (fst r)) [i; (nx - 1 - j)%Z]) /\
+       (grad = true ->
+        forall i j : Z,
+        (0 <= i < nz)%Z ->
+        (0 <= j < nx)%Z ->
+        get 0%Z (snd r') [i; j; 0%Z] = get 0%Z (snd r) [i; (nx - 1 - j)%Z; 0%Z] /\
+        get 0%Z (snd r') [i; j; 1%Z] = (- get 0 (snd r) [i; nx - 1 - j; 1])%Z).
+Proof. exact @InitSym.west_is_mirror_of_east_explicit. Qed.
+
+(* the down loop on the transposed problem (dz and dx exchanged) gives the transpose of the east loop *)
+Theorem C18_init_down_is_transpose_of_east :
+  forall (nz nx M M' : Z) (dx dz : R) (grad : bool) (slow : arr R) (vzero xsa : R) (xsi : Z) 
+         (zsa : R) (zsi : Z) (dzu dzd dxe : R) (td td' tt : arr R) (sg : arr Z),
+       wf slow ->
+       shape slow = [(nz - 1)%Z; (nx - 1)%Z] ->
+       wf tt ->
+       shape tt = [nz; nx] ->
+       (grad = true -> wf sg /\ shape sg = [nz; nx; 2%Z]) ->
+       wf td ->
+       wf td' ->
+       shape td = [M] ->
+       shape td' = [M'] ->
+       (nx <= M)%Z ->
+       (nx <= M')%Z ->
+       (0 <= zsi < nz - 1)%Z ->
+       (0 <= xsi < nx - 1)%Z ->
+       let r := InitSym.east_phase dx dz grad nx slow vzero xsa xsi zsa zsi dzu dzd dxe (td, tt, sg) in
+       let r' :=
+         InitSym.down_phase dz dx grad nx (InitSym.transpose (nz - 1) (nx - 1) slow) vzero zsa zsi xsa xsi dzu dzd dxe
+           (td', InitSym.transpose nz nx tt, InitSym.transpose_sgn nz nx sg) in
+       (forall i j : Z, (0 <= i < nz)%Z -> (0 <= j < nx)%Z -> get 0 (snd (fst r')) [j; i] = get 0 (snd (fst r)) [i; j]) /\
+       (grad = true ->
+        forall i j : Z,
+        (0 <= i < nz)%Z ->
+        (0 <= j < nx)%Z ->
+        get 0%Z (snd r') [j; i; 1%Z] = get 0%Z (snd r) [i; j; 0%Z] /\
+        get 0%Z (snd r') [j; i; 0%Z] = get 0%Z (snd r) [i; j; 1%Z]).
+Proof. exact @InitSym.down_is_transpose_of_east_explicit. Qed.
+
+(* up / west *)
+Theorem C18_init_up_is_transpose_of_west :
+  forall (nz nx M M' : Z) (dx dz : R) (grad : bool) (slow : arr R) (vzero xsa : R) (xsi : Z) 
+         (zsa : R) (zsi : Z) (dzu dzd dxw : R) (td td' tt : arr R) (sg : arr Z),
+       wf slow ->
+       shape slow = [(nz - 1)%Z; (nx - 1)%Z] ->
+       wf tt ->
+       shape tt = [nz; nx] ->
+       (grad = true -> wf sg /\ shape sg = [nz; nx; 2%Z]) ->
+       wf td ->
+       wf td' ->
+       shape td = [M] ->
+       shape td' = [M'] ->
+       (nx <= M)%Z ->
+       (nx <= M')%Z ->
+       (0 <= zsi < nz - 1)%Z ->
+       (0 <= xsi < nx - 1)%Z ->
+       let r := InitSym.west_phase dx dz grad slow vzero xsa xsi zsa zsi dzu dzd dxw (td, tt, sg) in
+       let r' :=
+         InitSym.up_phase dz dx grad (InitSym.transpose (nz - 1) (nx - 1) slow) vzero zsa zsi xsa xsi dzu dzd dxw
+           (td', InitSym.transpose nz nx tt, InitSym.transpose_sgn nz nx sg) in
+       (forall i j : Z, (0 <= i < nz)%Z -> (0 <= j < nx)%Z -> get 0 (snd (fst r')) [j; i] = get 0 (snd (fst r)) [i; j]) /\
+       (grad = true ->
+        forall i j : Z,
+        (0 <= i < nz)%Z ->
+        (0 <= j < nx)%Z ->
+        get 0%Z (snd r') [j; i; 1%Z] = get 0%Z (snd r) [i; j; 0%Z] /\
+        get 0%Z (snd r') [j; i; 0%Z] = get 0%Z (snd r) [i; j; 1%Z]).
+Proof. exact @InitSym.up_is_transpose_of_west_explicit. Qed.
+
+(* up / down under the z-mirror *)
+Theorem C18_init_up_is_mirror_of_down :
+  forall (nz nx M M' : Z) (dx dz : R) (grad : bool) (slow : arr R) (vzero xsa : R) (xsi : Z) 
+         (zsa : R) (zsi : Z) (dxw dxe dzd : R) (td td' tt : arr R) (sg : arr Z),
+       wf slow ->
+       shape slow = [(nz - 1)%Z; (nx - 1)%Z] ->
+       wf tt ->
+       shape tt = [nz; nx] ->
+       (grad = true -> wf sg /\ shape sg = [nz; nx; 2%Z]) ->
+       wf td ->
+       wf td' ->
+       shape td = [M] ->
+       shape td' = [M'] ->
+       (nz <= M)%Z ->
+       (nz <= M')%Z ->
+       (0 <= zsi < nz - 1)%Z ->
+       (0 <= xsi < nx - 1)%Z ->
+       let r := InitSym.down_phase dx dz grad nz slow vzero xsa xsi zsa zsi dxw dxe dzd (td, tt, sg) in
+       let r' :=
+         InitSym.up_phase dx dz grad (InitSym.mirror_z (nz - 1) (nx - 1) slow) vzero xsa xsi 
+           (IZR (nz - 1) - zsa) (nz - 2 - zsi) dxw dxe dzd
+           (td', InitSym.mirror_z nz nx tt, InitSym.mirror_sgn_z nz nx sg) in
+       (forall i j : Z,
+        (0 <= i < nz)%Z -> (0 <= j < nx)%Z -> get 0 (snd (fst r')) [i; j] = get 0 (snd (fst r)) [(nz - 1 - i)%Z; j]) /\
+       (grad = true ->
+        forall i j : Z,
+        (0 <= i < nz)%Z ->
+        (0 <= j < nx)%Z ->
+        get 0%Z (snd r') [i; j; 0%Z] = (- get 0 (snd r) [nz - 1 - i; j; 0])%Z /\
+        get 0%Z (snd r') [i; j; 1%Z] = get 0%Z (snd r) [(nz - 1 - i)%Z; j; 1%Z]).
+Proof. exact @InitSym.up_is_mirror_of_down_explicit. Qed.
+
+(* the sub-cell offsets the code computes on the mirrored problem are the exchanged ones when the source lies in its cell *)
+Theorem C18_init_mirrored_offsets :
+  forall (n : Z) (xsa : R) (xsi : Z),
+       0 <= xsa - IZR xsi <= 1 ->
+       let xsa' := IZR (n - 1) - xsa in
+       let xsi' := (n - 2 - xsi)%Z in
+       nabs (nsub xsa' (nofZ xsi')) = nsub (nofZ 1) (nabs (nsub xsa (nofZ xsi))) /\
+       nsub (nofZ 1) (nabs (nsub xsa' (nofZ xsi'))) = nabs (nsub xsa (nofZ xsi)).
+Proof. exact @InitSym.mirrored_dxw_is_dxe. Qed.
+
 Print Assumptions C18_t_ana_swap.
 Print Assumptions C18_delta_swap.
 Print Assumptions C18_four_point_swap.
@@ -112,3 +268,9 @@ Print Assumptions C18_t_ana_3d_swap_xy.
 Print Assumptions C18_interp2d_axis_swap.
 Print Assumptions C18_interp3d_axis_swap_xy.
 Print Assumptions C18_interp3d_axis_swap_yz.
+Print Assumptions C18_init_is_four_copies.
+Print Assumptions C18_init_west_is_mirror_of_east.
+Print Assumptions C18_init_down_is_transpose_of_east.
+Print Assumptions C18_init_up_is_transpose_of_west.
+Print Assumptions C18_init_up_is_mirror_of_down.
+Print Assumptions C18_init_mirrored_offsets.
